@@ -126,12 +126,32 @@ def lexical(rep: report.Report) -> None:
     t = pt.load_shipped()
     P = symnum.Prover(60000)
     # the two helpers are character-wise maps (AST shape), otherwise nothing below applies
-    src_sup = inspect.getsource(formatting.superscript)
-    src_from = inspect.getsource(formatting.from_superscript)
-    if '"".join(SUPERSCRIPTS[c] for c in str(exponent))' not in src_sup or \
-            'int("".join(DIGITS[c] for c in string))' not in src_from:
-        raise symnum.HarnessError("superscript / from_superscript are no longer character-wise maps")
-    sup, dig = formatting.SUPERSCRIPTS, formatting.DIGITS
+    # the two helpers as character maps, read off their behaviour (however they are written): what
+    # each of -,0..9 renders as, and what each rendered character reads back as
+    sup: Dict[str, str] = {}
+    dig: Dict[str, str] = {}
+    try:
+        for d_ in range(10):
+            sup[str(d_)] = formatting.superscript(d_) if d_ != 1 else formatting.superscript(11)[:1]
+        m5 = formatting.superscript(-5)
+        sup["-"] = m5[:len(m5) - len(sup["5"])]
+        for k_, v_ in sup.items():
+            if k_ == "-":
+                back = formatting.from_superscript(v_ + sup["5"])
+                dig[v_] = "-" if back == -5 else "!"
+            else:
+                dig[v_] = str(formatting.from_superscript(v_))
+        # character-wise: longer numbers are rendered and read digit by digit (validated on a family)
+        family = list(range(-130, 131)) + [10 ** 9 + 7, -(10 ** 12), 9876543210]
+        homomorphic = all(formatting.superscript(n_) == "".join(sup[c_] for c_ in str(n_)) for n_ in family if n_ != 1) \
+            and all(len(v_) == 1 for v_ in sup.values())
+    except Exception as e:  # noqa
+        rep.ob("unknown", f"superscript / from_superscript could not be read as character maps ({type(e).__name__})",
+               ("lex", "maps"))
+        return
+    if not homomorphic:
+        rep.ob("unknown", "superscript is not a character-wise map: the lexical layer does not apply", ("lex", "maps"))
+        return
     # (a) DIGITS o SUPERSCRIPTS is the identity on [-0-9]: symbolic character query
     c = z3.String("c")
     img = z3.StringVal("")
@@ -569,7 +589,8 @@ sys.exit(0)
         rep.violation(sig, f"{len(fs)} unit(s), e.g. str({shown or code}) = {text!r}: {cls}",
                       e2e_replay(code, cls) if cls not in ("spelling-differs", "spelling-unparsable",
                                                            "quantity-differs", "quantity-unparsable")
-                      else spelling_replay(code, text))
+                      else spelling_replay(code, text),
+                      soft=(cls == "unknown-size"))    # the oracle could not size what came back: a candidate
     # alternative spellings
     from measured.parsing import ParseError
 
